@@ -18,6 +18,7 @@ func VerifHarness_C16_AcceptedArityNeverArityError() {
 	t := verifFullTable()
 	names := verifNames(t)
 	name := names[verifrt.Choose("fn", len(names))]
+	verifrt.Tag("fnName", name)
 	fn := t[name]
 	n := verifrt.Choose("nargs", 5)
 	verifrt.Assume(fn.MinArity <= n && n <= fn.MaxArity)
@@ -41,6 +42,7 @@ func VerifHarness_C16_SpecNamesAndArities() {
 	}
 	verifrt.SortStrings(specNames)
 	name := specNames[verifrt.Choose("fn", len(specNames))]
+	verifrt.Tag("fnName", name)
 	fn, ok := t[name]
 	verifrt.Assert(ok, "specification-name-is-in-the-table")
 	if !ok {
@@ -87,6 +89,7 @@ func VerifHarness_C16_BoundToSameName() {
 	}
 	verifrt.SortStrings(names)
 	name := names[verifrt.Choose("fn", len(names))]
+	verifrt.Tag("fnName", name)
 	t := verifFullTable()
 	fn, ok := t[name]
 	verifrt.Assert(ok, "implemented-name-is-in-the-table")
@@ -105,6 +108,7 @@ func VerifHarness_C16_UnimplementedExplicit() {
 	}
 	verifrt.SortStrings(names)
 	name := names[verifrt.Choose("fn", len(names))]
+	verifrt.Tag("fnName", name)
 	t := verifFullTable()
 	fn, ok := t[name]
 	verifrt.Assert(ok, "unimplemented-name-is-in-the-table")
